@@ -10,29 +10,32 @@ PROPS = ["C03", "C06", "C07"]
 
 # per property and tier: list of (cfg, mode)
 CONFIGS = {
-    "C01": {"quick": [("ControllerMC_share.cfg", "edges"), ("ControllerMC_fault.cfg", "edges"), ("ControllerMC_crashfault.cfg", "edges")],
-            "thorough": [("ControllerMC_share.cfg", "edges"), ("ControllerMC_fault.cfg", "edges"), ("ControllerMC_crashfault.cfg", "edges"),
-                         ("ControllerMC_crash.cfg", "edges"),
+    "C01": {"quick": [("ControllerMC_share.cfg", "edges"), ("ControllerMC_share13.cfg", "edges"), ("ControllerMC_fault.cfg", "edges"),
+                      ("ControllerMC_crashfault.cfg", "edges")],
+            "thorough": [("ControllerMC_share.cfg", "edges"), ("ControllerMC_share13.cfg", "edges"), ("ControllerMC_fault.cfg", "edges"),
+                         ("ControllerMC_crashfault.cfg", "edges"), ("ControllerMC_crash.cfg", "edges"),
                          ("ControllerMC_share_sim.cfg", "sim")]},
     "C02": {"quick": [("ControllerMC_req.cfg", "edges"), ("ControllerMC_dual.cfg", "edges"), ("ControllerMC_pinmove.cfg", "edges"),
                       ("ControllerMC_dualreq.cfg", "edges"), ("ControllerMC_pin.cfg", "edges")],
             "thorough": [("ControllerMC_req.cfg", "edges"), ("ControllerMC_dual.cfg", "edges"), ("ControllerMC_pinmove.cfg", "edges"),
                          ("ControllerMC_dualreq.cfg", "edges"), ("ControllerMC_pin.cfg", "edges"), ("ControllerMC_dual_sim.cfg", "sim")]},
     "C03": {"quick": [("ControllerMC_stable.cfg", "edges"), ("ControllerMC_stable_il.cfg", "edges"), ("ControllerMC_stablefault.cfg", "edges"),
-                      ("ControllerMC_crash3.cfg", "edges")],
+                      ("ControllerMC_crash3.cfg", "edges"), ("ControllerMC_prefer.cfg", "edges")],
             "thorough": [("ControllerMC_stable.cfg", "edges"), ("ControllerMC_stable_il.cfg", "edges"), ("ControllerMC_stablefault.cfg", "edges"),
+                         ("ControllerMC_crash3.cfg", "edges"), ("ControllerMC_prefer.cfg", "edges"), ("ControllerMC_share.cfg", "edges"),
                          ("ControllerMC_stable_sim.cfg", "sim")]},
     "C06": {"quick": [("ControllerMC_crash.cfg", "edges"), ("ControllerMC_crash3.cfg", "edges"), ("ControllerMC_fault.cfg", "edges"),
                       ("ControllerMC_crashfault.cfg", "edges")],
             "thorough": [("ControllerMC_crash.cfg", "edges"), ("ControllerMC_crash3.cfg", "edges"), ("ControllerMC_fault.cfg", "edges"),
                          ("ControllerMC_crashfault.cfg", "edges"), ("ControllerMC_stale.cfg", "edges"),
                          ("ControllerMC_crash_sim.cfg", "sim"), ("ControllerMC_stale_sim.cfg", "sim")]},
-    "C07": {"quick": [("ControllerMC_starve.cfg", "edges"), ("ControllerMC_fault.cfg", "edges")],
-            "thorough": [("ControllerMC_starve.cfg", "edges"), ("ControllerMC_fault.cfg", "edges"), ("ControllerMC_starve_sim.cfg", "sim")]},
+    "C07": {"quick": [("ControllerMC_starve.cfg", "edges"), ("ControllerMC_fault.cfg", "edges"), ("ControllerMC_prefer.cfg", "edges")],
+            "thorough": [("ControllerMC_starve.cfg", "edges"), ("ControllerMC_fault.cfg", "edges"), ("ControllerMC_prefer.cfg", "edges"),
+                         ("ControllerMC_dualreq.cfg", "edges"), ("ControllerMC_starve_sim.cfg", "sim")]},
     "C11": {"quick": [("ControllerMC_share.cfg", "edges")],
             "thorough": [("ControllerMC_share.cfg", "edges"), ("ControllerMC_crash_sim.cfg", "sim")]},
 }
-SAMPLE = {"quick": 25000, "thorough": None}
+SAMPLE = {"quick": 12000, "thorough": None}
 SIM = {"num": 8000, "depth": 60}
 
 
@@ -211,7 +214,20 @@ def confirm(chk, mine, steps, inits, domain_path, byw):
     # every failing (predicate, op) pair that was not selected is represented by its signature already
 
 
+# allocator-level configurations that also decide predicates of these properties (AllocTrace.tla:
+# C07.FailOnlyIfEmpty, C03.AdditionalKeeps)
+ALLOC_LEVEL = {
+    "C07": {"quick": [("AllocMC_policy2.cfg", "edges"), ("AllocMC_policyS.cfg", "edges")],
+            "thorough": [("AllocMC_policy2.cfg", "edges"), ("AllocMC_policyS.cfg", "edges"), ("AllocMC_policy_sim.cfg", "sim")]},
+    "C03": {"quick": [("AllocMC_policy2.cfg", "edges")],
+            "thorough": [("AllocMC_policy2.cfg", "edges"), ("AllocMC_policy_sim.cfg", "sim")]},
+}
+
+
 def run(chk):
+    if chk.prop in ALLOC_LEVEL:
+        import fam_alloc
+        fam_alloc.run_alloc_level(chk, ALLOC_LEVEL[chk.prop][chk.tier])
     run_controller(chk)
 
 
